@@ -109,7 +109,7 @@ def run(tier):
         base_hash = servers[1 % nserv].ask((), full=False)
         import hashlib
         for k in list(base["probes"]):
-            if k.startswith(("same_expr_twice", "router_twice")):
+            if k.startswith(("same_expr_", "router_twice")):
                 # only the verdict line of the repeat probes is comparable across processes
                 base.setdefault("detail", {})[k] = base["probes"][k]
                 base["probes"][k] = base["probes"][k].split("\n", 1)[0]
@@ -121,7 +121,7 @@ def run(tier):
             b2 = srv.ask((), full=True)
             rep.add("traces_validated", len(b2["probes"]))
             for k, text in b2["probes"].items():
-                if k.startswith(("same_expr_twice", "router_twice")):
+                if k.startswith(("same_expr_", "router_twice")):
                     text = text.split("\n", 1)[0]
                 if text != base["probes"][k]:
                     violations.append({"driver": "hash-seed", "size": 0,
@@ -130,7 +130,7 @@ def run(tier):
                                        "features": {"why": "hash seed", "probe": k.split("@")[0]}})
         # repeat-compilation probes must say SAME already in the baseline
         for k, text in base["probes"].items():
-            if k.startswith(("same_expr_twice", "router_twice")) and text != "SAME":
+            if k.startswith(("same_expr_", "router_twice")) and text != "SAME":
                 detail = base.get("detail", {}).get(k, text)
                 violations.append({"driver": "repeat", "size": 0,
                                    "title": "%s: compiling the same object again gives different TEAL (fresh process, no history): %s" % (k, text),
@@ -252,7 +252,7 @@ def replay(case):
         k = case.get("probe")
         if k is None:
             return False
-        if k.startswith(("same_expr_twice", "router_twice")):
+        if k.startswith(("same_expr_", "router_twice")):
             print(k, "->", r["probes"][k][:40].split("\n")[0])
             return r["probes"][k] != "SAME"
         same = r["probes"][k] == b["probes"][k]
